@@ -197,7 +197,19 @@ def f_c10b():
     return 'absent F-C10b' if got == ref else f'DEFECT F-C10b: {got} != {ref}'
 
 
-ALL = {'F-C10b': f_c10b, 'F-C08b': f_c08b, 'F-C10': f_c10, 'F-C14a': f_c14a, 'F-C14b': f_c14b, 'F-C08': f_c08, 'F-C06b': f_c06b,
+def f_c05c():
+    """Identical heights and a minimum range of 0 for the slicing: min-max scaling over an empty range."""
+    import numpy as np
+    import pandas as pd
+    import ampycloud
+    n = 40
+    df = pd.DataFrame({'ceilo': ['A'] * n, 'dt': np.arange(-n, 0) * 15., 'height': [1000.] * n, 'type': [1] * n})
+    chunk = ampycloud.run(df, prms={'SLICING_PRMS': {'height_scale_kwargs': {'min_range': 0}}})
+    msg, ids = chunk.metar_msg(), sorted(set(chunk.data['slice_id']))
+    return 'absent F-C05c' if msg == 'OVC010' and ids == [0] else f'DEFECT F-C05c: {n} hits at 1000 ft reported as {msg}, slice ids {ids}'
+
+
+ALL = {'F-C05c': f_c05c, 'F-C10b': f_c10b, 'F-C08b': f_c08b, 'F-C10': f_c10, 'F-C14a': f_c14a, 'F-C14b': f_c14b, 'F-C08': f_c08, 'F-C06b': f_c06b,
        'F-C06a': f_c06a, 'F-C05': f_c05, 'F-C20': f_c20}
 
 if __name__ == '__main__':
